@@ -12,6 +12,7 @@ from engine.util import own_nodes, calls_with_nodes, where, with_exprs
 RULES = {
     "R-02.1": "for every record class (and helper codec, SVCB parameter, EDNS option) the abstract layout of the writer equals the layout of the reader: integer field widths, names, counted/fixed/rest octet fields, repetitions, optional tails, helper codecs",
     "R-02.2": "every call that reaches a type's from_wire_parser with a length taken from the wire is inside `with parser.restrict_to(length)`; restrict_to raises when the region is not consumed exactly and restores the end",
+    "R-02.4": "a flag packed into the high bit(s) of an integer field is split at the same bit on both sides: the constant the writer ORs in / shifts by and the constants the reader tests, clears or subtracts name one bit position",
     "R-02.3": "every RdataType member has a module dns/rdtypes/{ANY,IN,CH}/<NAME>.py with a class of that name deriving from Rdata with all four codec methods, or is in the frozen generic table",
 }
 
@@ -19,7 +20,87 @@ INLINE = {("dns.rdtypes.IN.APL.APL._to_wire", "item.to_wire"): "dns.rdtypes.IN.A
 # RdataType members deliberately served by GenericRdata (metatypes, obsolete or unimplemented types); frozen on the pinned tree
 GENERIC_OK = {"TYPE0", "NONE", "MD", "MF", "MB", "MG", "MR", "NULL", "MINFO", "SIG0", "NXT", "A6", "UNSPEC", "TA", "IXFR", "AXFR", "MAILB", "MAILA", "ANY", "NXNAME"}
 NO_METHOD_OK = {("OPT", "from_text"): "OPT is a pseudo-RR with no master-file syntax"}
+# name fields whose writer passes the origin but whose reader does not (one line of reason each)
+NAME_ORIGIN_OK = {"dns.rdtypes.ANY.TSIG.TSIG": "the TSIG algorithm name is absolute by construction: from_text reads it with relativize=False and the message layer builds it from the absolute constants in dns.tsig; a TSIG never lives in a zone"}
+# (label, writer function, writer variable, reader function, reader variable) of integer fields that carry a flag in their top bit
+PACKED = [
+    ("APL negation bit", "dns.rdtypes.IN.APL.APLItem.to_wire", "l", "dns.rdtypes.IN.APL.APL.from_wire_parser", "afdlen"),
+    ("AMTRELAY discovery-optional bit", "dns.rdtypes.ANY.AMTRELAY.AMTRELAY._to_wire", "relay_type", "dns.rdtypes.ANY.AMTRELAY.AMTRELAY.from_wire_parser", "relay_type"),
+]
 HELPER_PAIRS = [("dns.rdtypes.util.Bitmap.to_wire", "dns.rdtypes.util.Bitmap.from_wire_parser"), ("dns.rdtypes.util.Gateway.to_wire", "dns.rdtypes.util.Gateway.from_wire_parser")]
+
+
+def _strip_origin(toks):
+    out = []
+    for t in toks:
+        if t[0] == "name":
+            out.append(("name",))
+        elif t[0] in ("rep", "opt"):
+            out.append((t[0], _strip_origin(t[1])) + tuple(t[2:]))
+        else:
+            out.append(t)
+    return out
+
+
+def _is_pow2(n):
+    return isinstance(n, int) and n > 0 and n & (n - 1) == 0
+
+
+def _flag_bits(f, var, width=8):
+    """Bit positions named by the constants that combine with / split `var` in function f: (position or None, text, node)."""
+    out = []
+
+    def const(e):
+        return e.value if isinstance(e, ast.Constant) and isinstance(e.value, int) and not isinstance(e.value, bool) else None
+
+    def add(v, node, how):
+        if how == "mask" or how == "sub":
+            out.append((v.bit_length() - 1 if _is_pow2(v) else None, src(node), node))
+        elif how == "clear":  # var &= C keeps the low bits: the flag is the bit just above them
+            out.append(((v + 1).bit_length() - 1 if _is_pow2(v + 1) else None, src(node), node))
+        elif how == "shift":
+            out.append((v, src(node), node))
+        elif how == "ge":
+            out.append((v.bit_length() - 1 if _is_pow2(v) else None, src(node), node))
+
+    assigned = set()
+    for n in ast.walk(f.node):
+        if isinstance(n, ast.Assign) and any(src(t) == var for t in n.targets):
+            assigned |= {id(x) for x in ast.walk(n.value)}
+    for n in ast.walk(f.node):
+        if isinstance(n, ast.AugAssign) and src(n.target) == var and const(n.value) is not None:
+            v = const(n.value)
+            if isinstance(n.op, ast.BitOr):
+                add(v, n, "mask")
+            elif isinstance(n.op, (ast.Sub, ast.BitXor)):
+                add(v, n, "sub")
+            elif isinstance(n.op, ast.BitAnd):
+                add(v, n, "clear")
+        elif isinstance(n, ast.BinOp):
+            l, r = n.left, n.right
+            involves = any(isinstance(x, ast.Name) and x.id == var or isinstance(x, ast.Attribute) and x.attr == var for x in ast.walk(n)) or id(n) in assigned
+            if not involves:
+                continue
+            if isinstance(n.op, (ast.LShift, ast.RShift)) and const(r) is not None and (src(l) == var or isinstance(n.op, ast.LShift)):
+                add(const(r), n, "shift")
+            elif isinstance(n.op, ast.BitOr):
+                for x in (l, r):
+                    if const(x) is not None:
+                        add(const(x), n, "mask")
+            elif isinstance(n.op, ast.BitAnd) and src(l) == var and const(r) is not None:
+                v = const(r)
+                add(v, n, "mask" if _is_pow2(v) else "clear")
+        elif isinstance(n, ast.Compare) and len(n.ops) == 1 and src(n.left) == var and const(n.comparators[0]) is not None:
+            v = const(n.comparators[0])
+            if isinstance(n.ops[0], ast.Gt):
+                add(v + 1, n, "ge")
+            elif isinstance(n.ops[0], ast.GtE):
+                add(v, n, "ge")
+            elif isinstance(n.ops[0], ast.Lt):
+                add(v, n, "ge")
+            elif isinstance(n.ops[0], ast.LtE):
+                add(v + 1, n, "ge")
+    return out
 
 
 def _pair(model, rep, rule, label, w, r, ctx, file_name="file", where_=""):
@@ -27,6 +108,10 @@ def _pair(model, rep, rule, label, w, r, ctx, file_name="file", where_=""):
         wr = Writer(model, w, file_name, INLINE, ctx)
         wt = normalise(wr.run(), "w")
         rt = normalise(Reader(model, r).run(), "r")
+        if label in NAME_ORIGIN_OK:
+            if compare(wt, rt) is not None and compare(_strip_origin(wt), _strip_origin(rt)) is None:
+                rep.excepted(rule, label, where_, "name written with the origin, read without: " + NAME_ORIGIN_OK[label], stmt="name-origin")
+            wt, rt = _strip_origin(wt), _strip_origin(rt)
         d = compare(wt, rt)
         arms = []
         for (a, b) in wr.arm_pairs:
@@ -80,6 +165,22 @@ def run(model, rep, tier):
     rl = model.cls("dns.rdtypes.ANY.AMTRELAY.Relay")
     rep.check(model.lookup_method(rl, "to_wire").cls.name == "Gateway" and model.lookup_method(rl, "from_wire_parser").cls.name == "Gateway", "R-02.1", rl.qualname, rl.file,
               "Relay inherits both codecs from Gateway", "Relay overrides one side of the Gateway codec", stmt="relay-inherits")
+
+    # ---------------------------------------------------------------- R-02.4
+    n_p = 0
+    for (label, wq, wv, rq, rv) in PACKED:
+        wf, rf = model.func(wq), model.func(rq)
+        wb, rb = _flag_bits(wf, wv), _flag_bits(rf, rv)
+        # the writer's `assert l < 128`-style bound belongs to the same split
+        if not wb or not rb:
+            rep.blind("R-02.4", label, f"{wf.file}:{wf.lineno}", f"no flag-bit constants found around `{wv}` (writer {len(wb)}) / `{rv}` (reader {len(rb)})", stmt="flag-bit")
+            continue
+        n_p += 1
+        positions = {b for (b, _, _) in wb + rb}
+        detail = "writer " + ", ".join(f"`{t}`" for (_, t, _) in wb) + "; reader " + ", ".join(f"`{t}`" for (_, t, _) in rb)
+        rep.check(len(positions) == 1 and None not in positions, "R-02.4", label, f"{rf.file}:{rb[0][2].lineno}", f"all constants name bit {sorted(positions, key=str)[0]}: {detail}",
+                  f"the flag is not split at one bit position on both sides ({sorted(positions, key=str)}): {detail}", stmt="flag-bit")
+    rep.floor("R-02.4", n_p, 2)
 
     # ---------------------------------------------------------------- R-02.2
     n_sites = 0
@@ -151,6 +252,16 @@ def run(model, rep, tier):
 
 
 WITNESSES = [
+    {"id": "c02-apl-negation-threshold", "rule": "R-02.4", "file": "dns/rdtypes/IN/APL.py", "expect": "fires",
+     "old": "            if afdlen > 127:", "new": "            if afdlen > 128:"},
+    {"id": "c02-twin-apl-negation-mask", "rule": "R-02.4", "file": "dns/rdtypes/IN/APL.py", "expect": "silent",
+     "old": "            if afdlen > 127:\n                negation = True\n                afdlen -= 128", "new": "            if afdlen & 0x80:\n                negation = True\n                afdlen &= 0x7F"},
+    {"id": "c02-amtrelay-clear-mask", "rule": "R-02.4", "file": "dns/rdtypes/ANY/AMTRELAY.py", "expect": "fires",
+     "old": "        relay_type &= 0x7F", "new": "        relay_type &= 0x3F"},
+    {"id": "c02-hip-server-without-origin", "rule": "R-02.1", "file": "dns/rdtypes/ANY/HIP.py", "expect": "fires",
+     "old": "            server = parser.get_name(origin)", "new": "            server = parser.get_name()"},
+    {"id": "c02-soa-rname-writer-without-origin", "rule": "R-02.1", "file": "dns/rdtypes/ANY/SOA.py", "expect": "fires",
+     "old": "        self.rname.to_wire(file, compress, origin, canonicalize)", "new": "        self.rname.to_wire(file, compress, None, canonicalize)"},
     {"id": "c02-tkey-length-width", "rule": "R-02.1", "file": "dns/rdtypes/ANY/TKEY.py", "expect": "fires",
      "old": "        key = parser.get_counted_bytes(2)", "new": "        key = parser.get_counted_bytes(1)"},
     {"id": "c02-dsync-field-width", "rule": "R-02.1", "file": "dns/rdtypes/ANY/DSYNC.py", "expect": "fires",
